@@ -21,14 +21,23 @@ type exhSym struct {
 	name string
 	mk   func(g *exhGen) HOp
 	once bool
+	key  int // symbols with the same key exclude each other (0 = the symbol's own index + 1)
 }
 
 type exhGen struct {
 	ev, lg int
 }
 
-func (g *exhGen) audit(ses, typ, pid string) HOp {
+func (g *exhGen) audit(ses, typ, pid string, kv ...string) HOp {
 	e := &HEvent{ID: g.ev, Ses: ses, Type: typ, PIDText: pid}
+	if typ == "LOGIN" {
+		e.Fields = map[string]string{"old-ses": unsetID, "old-auid": "unset", "auid": "1000", "uid": "0", "tty": "(none)"}
+	} else {
+		e.Fields = map[string]string{"auid": "1000", "uid": "0", "terminal": "ssh", "ppid": "71"}
+	}
+	for i := 0; i+1 < len(kv); i += 2 {
+		e.Fields[kv[i]] = kv[i+1]
+	}
 	g.ev++
 	return HOp{Kind: "audit", Event: e}
 }
@@ -40,18 +49,57 @@ func (g *exhGen) login(pid int) HOp {
 }
 
 var exhAlphabet = []exhSym{
-	{"login1", func(g *exhGen) HOp { return g.login(71) }, true},
-	{"login2", func(g *exhGen) HOp { return g.login(72) }, true},
-	{"LOGIN1", func(g *exhGen) HOp { return g.audit("1", "LOGIN", "71") }, true},
-	{"LOGIN2", func(g *exhGen) HOp { return g.audit("2", "LOGIN", "72") }, true},
-	{"ev1", func(g *exhGen) HOp { return g.audit("1", "USER_START", "1071") }, false},
-	{"ev2", func(g *exhGen) HOp { return g.audit("2", "USER_CMD", "1072") }, false},
-	{"disp1", func(g *exhGen) HOp { return g.audit("1", "CRED_DISP", "71") }, false},
-	{"disp2", func(g *exhGen) HOp { return g.audit("2", "CRED_DISP", "72") }, false},
-	{"LOGIN3", func(g *exhGen) HOp { return g.audit("3", "LOGIN", "99") }, true}, // cron-like: no login
-	{"ev3", func(g *exhGen) HOp { return g.audit("3", "USER_ACCT", "1099") }, false},
-	{"clean_sess", func(g *exhGen) HOp { return HOp{Kind: "clean_sess"} }, false},
-	{"clean_logins", func(g *exhGen) HOp { return HOp{Kind: "clean_logins"} }, false},
+	{"login1", func(g *exhGen) HOp { return g.login(71) }, true, 0},
+	{"login2", func(g *exhGen) HOp { return g.login(72) }, true, 0},
+	{"LOGIN1", func(g *exhGen) HOp { return g.audit("1", "LOGIN", "71") }, true, 0},
+	{"LOGIN2", func(g *exhGen) HOp { return g.audit("2", "LOGIN", "72") }, true, 0},
+	{"ev1", func(g *exhGen) HOp { return g.audit("1", "USER_START", "1071") }, false, 0},
+	{"ev2", func(g *exhGen) HOp { return g.audit("2", "USER_CMD", "1072") }, false, 0},
+	{"disp1", func(g *exhGen) HOp { return g.audit("1", "CRED_DISP", "71") }, false, 0},
+	{"disp2", func(g *exhGen) HOp { return g.audit("2", "CRED_DISP", "72") }, false, 0},
+	{"LOGIN3", func(g *exhGen) HOp { return g.audit("3", "LOGIN", "99") }, true, 0}, // cron-like: no login
+	{"ev3", func(g *exhGen) HOp { return g.audit("3", "USER_ACCT", "1099") }, false, 0},
+	{"clean_sess", func(g *exhGen) HOp { return HOp{Kind: "clean_sess"} }, false, 0},
+	{"clean_logins", func(g *exhGen) HOp { return HOp{Kind: "clean_logins"} }, false, 0},
+	// the LOGIN record of session 2 as it looks when its process was started from inside session 1 (instead of LOGIN2)
+	{"LOGIN2/old-ses=1", func(g *exhGen) HOp {
+		return g.audit("2", "LOGIN", "72", "old-ses", "1", "old-auid", "1000", "tty", "pts0")
+	}, true, 4},
+}
+
+func (s exhSym) bit(i int) uint64 {
+	if s.key > 0 {
+		return 1 << uint(s.key-1)
+	}
+	return 1 << uint(i)
+}
+
+// exhSerials: the records' serials along the history, by a policy that rotates with the history's number: all zero,
+// running down from 2^32-1, running up through 2^32, running down from a small number, all equal.
+func exhSerials(h *History, n int) {
+	pol := n % 5
+	h.Serials = []string{"zero", "decreasing", "wrap", "decreasing-small", "equal"}[pol]
+	j := uint32(0)
+	for i := range h.Ops {
+		if h.Ops[i].Kind != "audit" {
+			continue
+		}
+		e := h.Ops[i].Event
+		switch pol {
+		case 1:
+			e.Seq = 1<<32 - 1 - j
+		case 2:
+			e.Seq = 1<<32 - 2 + j
+		case 3:
+			e.Seq = 9 - j
+		case 4:
+			e.Seq = 77
+		}
+		if n%3 == 1 {
+			e.TSms = procStart.UnixMilli() + int64(j)
+		}
+		j++
+	}
 }
 
 func exhHistory(word []int) History {
@@ -99,7 +147,8 @@ func exhHistory(word []int) History {
 func exhMain(out, prop string, maxLen, coqBudget int, seed uint64) {
 	os.MkdirAll(out, 0o755)
 	sum := hutil.NewSummary(prop, seed,
-		fmt.Sprintf("EXHAUSTIVE: every history of length 1..%d over the alphabet {%s} in which each login and each LOGIN record occurs at most once; cleanup cut-offs = the instant of the call; "+
+		fmt.Sprintf("EXHAUSTIVE: every history of length 1..%d over the alphabet {%s} in which each login and each LOGIN record occurs at most once (LOGIN2 in one of its two variants: old-ses unset, or naming session 1); cleanup cut-offs = the instant of the call; "+
+			"the records' serials rotate with the history's number (all zero, down from 2^32-1, up through 2^32, down from 9, all equal); "+
 			"each history runs on the real correlator, is judged by the %s oracle, and (all of them, or an evenly spaced subset of at most %d) is replayed step by step against the Coq model; "+
 			"non-trivial = at least one event emitted; distinct by construction", maxLen, exhNames(), prop, coqBudget))
 	cases := &hutil.CaseFile{Dir: out, Stem: "cases_tracker_exh", PerFile: 60,
@@ -119,12 +168,12 @@ func exhMain(out, prop string, maxLen, coqBudget int, seed uint64) {
 			return
 		}
 		for i, s := range exhAlphabet {
-			if s.once && used&(1<<uint(i)) != 0 {
+			if s.once && used&s.bit(i) != 0 {
 				continue
 			}
 			u := used
 			if s.once {
-				u |= 1 << uint(i)
+				u |= s.bit(i)
 			}
 			count(depth+1, u)
 		}
@@ -141,6 +190,7 @@ func exhMain(out, prop string, maxLen, coqBudget int, seed uint64) {
 		if len(word) > 0 {
 			h := exhHistory(word)
 			h.Debug = n%3 == 2
+			exhSerials(&h, n)
 			rn := newRunner(h)
 			res := rn.run()
 			n++
@@ -174,12 +224,12 @@ func exhMain(out, prop string, maxLen, coqBudget int, seed uint64) {
 			return
 		}
 		for i, s := range exhAlphabet {
-			if s.once && used&(1<<uint(i)) != 0 {
+			if s.once && used&s.bit(i) != 0 {
 				continue
 			}
 			u := used
 			if s.once {
-				u |= 1 << uint(i)
+				u |= s.bit(i)
 			}
 			word = append(word, i)
 			rec(u)
